@@ -544,7 +544,7 @@ func (r *c13Run) restart(o *c13SObs) {
 		}()
 		ctx, cancel := context.WithTimeout(context.Background(), 300*time.Millisecond)
 		defer cancel()
-		s2, err := setec.NewStore(ctx, setec.StoreConfig{
+		s2, err := newStoreReleased(ctx, setec.StoreConfig{
 			Client: dead, Secrets: slices.Clone(r.in.Names), AllowLookup: true, Cache: r.restartCache(content),
 			PollInterval: -1, TimeNow: r.timeNow, Logf: func(string, ...any) {},
 		})
@@ -724,7 +724,7 @@ func c13RunHist(in c13Input, workdir string) (*c13Case, string) {
 		}()
 		ctx, cancel := context.WithTimeout(context.Background(), 2*time.Second)
 		defer cancel()
-		st, err := setec.NewStore(ctx, setec.StoreConfig{
+		st, err := newStoreReleased(ctx, setec.StoreConfig{
 			Client: r.cli, Secrets: slices.Clone(in.Names), AllowLookup: in.Allow, Cache: r.cache,
 			ExpiryAge: time.Duration(in.AgeSec) * time.Second, PollTicker: c13Ticker{make(chan time.Time)},
 			TimeNow: r.timeNow, Logf: func(string, ...any) {},
@@ -952,7 +952,7 @@ func (r *c13Run) runLife(c *c13Case) {
 			cancel()
 		}
 		defer cancel()
-		st2, err := setec.NewStore(ctx, setec.StoreConfig{
+		st2, err := newStoreReleased(ctx, setec.StoreConfig{
 			Client: cli2, Secrets: slices.Clone(in.Names2), AllowLookup: true, Cache: r.cache,
 			PollTicker: c13Ticker{make(chan time.Time)}, TimeNow: r.timeNow, Logf: func(string, ...any) {},
 		})
